@@ -689,7 +689,7 @@ const UNCOMPUTABLE: [u64; 3] = [0x00, 0x11, 0x9999];
 /// `slow`: the blocks are three of 1.2 MiB (three messages, each larger than the yamux window) and the link towards the
 /// client carries 200 KiB per second of virtual time, so each message is accepted within ~6 s (well inside the 15 s write
 /// timeout that applies to each message) while the whole response takes ~17 s: every block must still arrive exactly once.
-fn response_end_to_end(ctx: &mut Ctx, presences: usize, slow: bool) {
+fn response_end_to_end(ctx: &mut Ctx, presences: usize, slow: bool, forged_first: bool) {
     use crate::env::simnet::{NodeCmd, World};
     use litep2p::{
         config::ConfigBuilder,
@@ -743,6 +743,12 @@ fn response_end_to_end(ctx: &mut Ctx, presences: usize, slow: bool) {
                             ResponseType::Presence { cid: Cid::new_v1(0x55, Multihash::wrap(0x12, &d).expect("multihash")), presence: BlockPresenceType::DontHave }
                         })
                         .collect();
+                    if forged_first {
+                        // a block whose CID names a hash this build cannot compute (SHA-1): the receiver must drop it, and
+                        // only it
+                        let cid = Cid::new_v1(0x55, Multihash::wrap(0x11, &[0xabu8; 20]).expect("sha1 multihash"));
+                        responses.push(ResponseType::Block { cid, block: b"forged content that hashes to nothing it claims".to_vec() });
+                    }
                     responses.extend(blocks2.iter().map(|(cid, block)| ResponseType::Block { cid: *cid, block: block.clone() }));
                     server.send_response(peer, responses).await;
                 }
@@ -797,11 +803,11 @@ fn response_end_to_end(ctx: &mut Ctx, presences: usize, slow: bool) {
         Ok((got.len(), w.driver.steps as usize))
     })
     .join();
-    let replay = json!({"kind": "bitswap-response-end-to-end", "presences": presences, "slow_link": slow});
+    let replay = json!({"kind": "bitswap-response-end-to-end", "presences": presences, "slow_link": slow, "uncomputable_block_first": forged_first});
     match result {
         Ok(Ok((n, steps))) => {
             ctx.cov_add("evaluations", 1);
-            ctx.sub(&format!("response_end_to_end[{presences} presences{}]", if slow { ", slow link" } else { "" }), json!({"blocks_delivered": n, "driver_steps": steps}));
+            ctx.sub(&format!("response_end_to_end[{presences} presences{}{}]", if slow { ", slow link" } else { "" }, if forged_first { ", uncomputable block first" } else { "" }), json!({"blocks_delivered": n, "driver_steps": steps}));
         }
         Ok(Err((sig, what))) if sig.starts_with("machinery/") => ctx.machinery_error(format!("{sig}: {what}")),
         Ok(Err((sig, what))) => ctx.violation(Violation { signature: sig, what, replay }),
@@ -1361,9 +1367,11 @@ pub fn run(ctx: &mut Ctx) {
     acc.ctx.sub("batching_protobuf_overhead", json!({"cases": b3_cases, "result": overhead_report}));
 
     // ---------------------------------------------------------------- the real protocol end to end
-    response_end_to_end(acc.ctx, 10, false);
-    response_end_to_end(acc.ctx, 120_000, false);
-    response_end_to_end(acc.ctx, 10, true);
+    response_end_to_end(acc.ctx, 10, false, false);
+    response_end_to_end(acc.ctx, 120_000, false, false);
+    response_end_to_end(acc.ctx, 10, true, false);
+    // a block that must be dropped ahead of blocks that verify, in one message
+    response_end_to_end(acc.ctx, 0, false, true);
 
     // ---------------------------------------------------------------- totals
     let evaluations = acc.evaluations;
